@@ -413,8 +413,26 @@ def run_check(pid, tier, seed, t0):
     log('[%s] proof: %d/%d obligations discharged (%s)' % (pid, discharged, len(obl['theorems']),
                                                            'build ok' if proof_ok else 'BUILD BROKEN'))
 
+    # ---- where did the code move?  (effort allocation only, see harness/fingerprint.py)
+    moved = {}
+    try:
+        import fingerprint
+        moved = fingerprint.changed_for(pid)
+    except Exception as e:
+        notes.append('fingerprint comparison failed (%s: %s); search widened' % (type(e).__name__, e))
+        moved = {'?': ['?']}
+    if moved:
+        log('[%s] source differs from the revision the model was validated against in %s - correspondence widened' % (
+            pid, '; '.join('%s: %s' % (f, ', '.join(u[:6]) + (' ...' if len(u) > 6 else '')) for f, u in sorted(moved.items()))[:600]))
+        notes.append('functions that differ from fingerprints.json: %s' % json.dumps(moved, sort_keys=True)[:2000])
+
     # ---- CORR + ORACLE
-    nseeds = 1 if tier == 'quick' else 8
+    # quick: 4 derived seeds side by side (12, half of them with the thorough generators, when the anchored
+    # code moved); thorough: 8 (16 when it moved) with the thorough generators
+    if tier == 'quick':
+        nseeds = int(os.environ.get('VERIF_QUICK_SEEDS', '4') or 4) * (3 if moved else 1)
+    else:
+        nseeds = 16 if moved else 8
     evaluations = 0
     distinct = set()
     hist = {}
@@ -425,11 +443,11 @@ def run_check(pid, tier, seed, t0):
     known_hit = {}
     known = load_known(pid)
     open_known = [e for e in known if e.get('status') == 'open']
-    jobs = [(pid, seed, s, tier, driver_ok) for s in range(nseeds)]
+    jobs = [(pid, seed, s, ('thorough' if (moved and s % 2) else tier), driver_ok) for s in range(nseeds)]
     if nseeds > 1:
         import multiprocessing
-        with multiprocessing.Pool(min(nseeds, 8)) as pool:
-            results = pool.map(_seed_worker, jobs)
+        with multiprocessing.Pool(min(nseeds, max(2, (os.cpu_count() or 4) - 2), 12)) as pool:
+            results = pool.map(_seed_worker, jobs, chunksize=1)
     else:
         results = [_seed_worker(j) for j in jobs]
     open_ids = set(e['id'] for e in open_known)
